@@ -183,6 +183,25 @@ def catalogue():
             for iset in ("left", "right"):
                 add("cyc%d_g%d_%s" % (n, g, iset), "cyclic", {"n": n, "g": g, "info": iset},
                     lambda n=n, g=g, iset=iset: E.CyclicCodeEncoder(code_length=n, generator_polynomial=g, information_set=iset))
+    # every divisor of X^n + 1 for the remaining n <= 21 (default layout; 'right' for the two largest generators of each n)
+    for n in (4, 6, 8, 10, 11, 12, 13, 14, 16, 17, 18, 19, 20, 21):
+        ds = divisors_of_xn1(n)
+        for g in ds:
+            for iset in ("left", "right"):
+                if iset == "right" and g not in ds[:2] + ds[-2:]:
+                    continue
+                add("cyc%d_g%d_%s" % (n, g, iset), "cyclic", {"n": n, "g": g, "info": iset},
+                    lambda n=n, g=g, iset=iset: E.CyclicCodeEncoder(code_length=n, generator_polynomial=g, information_set=iset))
+    # wide codes of small dimension (32 < n < 64, n >= 64) for the exhaustive ML decoder
+    for idx, (k, n) in enumerate(((6, 40), (5, 70), (4, 33))):
+        while True:
+            G = np.array([[rng.getrandbits(1) for _ in range(n)] for _ in range(k)], dtype=np.uint8)
+            if rank(G) == k:
+                break
+        add("wide%d_%dx%d" % (idx, k, n), "linear", {"k": k, "n": n, "G": G.tolist()}, lambda G=G: E.LinearBlockCodeEncoder(T(G)))
+    for delta in (27, 31):
+        add("bch6_d%d_left" % delta, "bch", {"mu": 6, "delta": delta, "info": "left"}, lambda delta=delta: E.BCHCodeEncoder(mu=6, delta=delta))
+    add("rm1_6", "reed_muller", {"r": 1, "m": 6}, lambda: E.ReedMullerCodeEncoder(1, 6))
     # cyclic / BCH / Golay / RS-style / extended Hamming with index-list and permuted information sets
     for n, g in ((7, 11), (7, 29), (15, 19), (15, 465)):
         k = n - (g.bit_length() - 1)
